@@ -19,6 +19,7 @@ pub fn spec() -> PropSpec {
             "country codes are the ISO 3166 alpha-2 codes of the State names (YU for the block still labelled Yugoslavia), ICAO1/ICAO2 for the two ICAO blocks",
         ],
         workers: 16,
+        also_nochk: false,
         quick_budget_s: 600,
         thorough_budget_s: 1800,
         min_nontrivial_quick: 16_000_000,
